@@ -1,6 +1,6 @@
 SPECIFICATION Spec
 CONSTANTS
-  TypeSet <- TypesCppC
+  TypeSet <- ThorD
   TopLen = 3
   TypesOnly = FALSE
   Dump = TRUE
